@@ -9,6 +9,7 @@ want = set(base["stable_pass"])
 with tempfile.TemporaryDirectory() as d:
     x = os.path.join(d, "j.xml")
     env = dict(os.environ); env.pop("NFCPY_VERIF", None)
+    env["PYTHONPATH"] = os.path.join(repo, "src")   # the editable install points at /repo/src: test THIS tree
     subprocess.run(["/venv/bin/python", "-m", "pytest", "-q", "-p", "no:cacheprovider", "--timeout=900",
                     "--continue-on-collection-errors", "--junitxml=" + x], cwd=repo, env=env,
                    stdout=subprocess.DEVNULL, stderr=subprocess.DEVNULL)
@@ -26,6 +27,7 @@ for attempt in range(3):
     if not missing or len(missing) > 40:
         break
     env = dict(os.environ); env.pop("NFCPY_VERIF", None)
+    env["PYTHONPATH"] = os.path.join(repo, "src")
     still = []
     for t in missing:
         r = subprocess.run(["/venv/bin/python", "-m", "pytest", "-q", "-p", "no:cacheprovider", "--timeout=900", nodeid(t)],
